@@ -24,8 +24,14 @@ def known_keys_for(prop):
 
 
 def make_runner(ctx, unit):
+    journal = os.environ.get("VERIF_JOURNAL")
+
     def run_case(case):
         ctx.evaluations += 1
+        if journal:
+            # crash diagnosis (the previous run of this shard died from a signal): remember the case about to run
+            with open(journal, "w") as jf:
+                json.dump(dict(payload=encode_payload(case), render=unit.render(case)[:4000]), jf)
         try:
             unit.body(ctx, case)
         except PropertyViolation as v:
